@@ -468,7 +468,15 @@ def rule_r12(ctx):
     c09.rule_r9(ctx, rid="C04.R12")
 
 
-RULES = [rule_r1, rule_r2, rule_r3, rule_r4, rule_r5, rule_r6, rule_r7, rule_r8, rule_r9, rule_r10, rule_r11, rule_r12]
+def rule_r13(ctx):
+    """Shared with C12.R3: 'never mixed / truncated only as a whole' - the teardown discards the unsent output and clears
+    `connected` in ONE outbuf_lock region before it wakes a paused producer; were the flag cleared later, the producer would
+    append its next piece behind discarded bytes on a socket that is still open (a response with a hole in it)."""
+    from . import c12
+    c12.rule_r3(ctx, rid="C04.R13")
+
+
+RULES = [rule_r1, rule_r2, rule_r3, rule_r4, rule_r5, rule_r6, rule_r7, rule_r8, rule_r9, rule_r10, rule_r11, rule_r12, rule_r13]
 
 from ..selftest import M, T, V  # noqa: E402
 
